@@ -81,6 +81,17 @@ type RegObs struct {
 	ID  int    `json:"id"`
 	Sum string `json:"sum"`
 	Len int    `json:"len"`
+	// byte-level facts measured on the raw register (C06, C07)
+	Root    bool `json:"root"`    // IsRootOfAnObject(raw)
+	Ptr     bool `json:"ptr"`     // HasPointers(raw)
+	Lim     bool `json:"lim"`     // HasSizeLimit(raw)
+	HasNext bool `json:"hasnext"` // sibling link present in the encoding
+	IsData  bool `json:"isdata"`  // array data / map data / collision group slab
+	Compact bool `json:"compact"` // shared section holds compact-map extra data
+	Body    int  `json:"body"`    // len(raw) minus the root's extra-data section and the shared inlined-extra-data section
+	Reenc   bool `json:"reenc"`   // EncodeSlab(DecodeSlab(raw)) == raw
+	Dsz     int  `json:"dsz"`     // ByteSize() of the slab decoded from the register
+	Msz     int  `json:"msz"`     // ByteSize() of the in-memory slab that produced the register (0 if not loaded)
 }
 
 func (w *World) cfg() RecCfg {
@@ -508,6 +519,7 @@ func (w *World) valueFor(e *ElemSpec, newName, parent string) (atree.Value, *Han
 		must(err)
 		h = &Handle{Name: newName, Kind: "A", Arr: a, Parent: parent}
 		e.Vid = w.cid(valueIDToSlabID(a.ValueID()))
+		e.Ti = tiString(a.Type())
 		v = a
 	case e.New == "M" || e.New == "C":
 		var ti atree.TypeInfo = testutils.NewSimpleTypeInfo(uint64(44))
@@ -519,6 +531,7 @@ func (w *World) valueFor(e *ElemSpec, newName, parent string) (atree.Value, *Han
 		must(err)
 		h = &Handle{Name: newName, Kind: "M", Map: m, Parent: parent}
 		e.Vid = w.cid(valueIDToSlabID(m.ValueID()))
+		e.Ti = tiString(m.Type())
 		e.New = "M"
 		v = m
 	case e.Ref != "":
